@@ -689,6 +689,7 @@ impl<'i> RecipeCollector<'i, '_> {
 
             if let Some(note) = &located_ingredient.note {
                 self.ctx.error(note_reference_error(
+                    self.input,
                     note.span(),
                     implicit,
                     definition_location.span(),
@@ -914,6 +915,7 @@ impl<'i> RecipeCollector<'i, '_> {
 
             if let Some(note) = &located_cookware.note {
                 self.ctx.error(note_reference_error(
+                    self.input,
                     note.span(),
                     implicit,
                     definition_location.span(),
@@ -1413,12 +1415,25 @@ fn find_inline_quantity<'a>(
 }
 
 fn note_reference_error(
+    input: &str,
     span: Span,
     implicit: bool,
     def_span: Span,
     def_note_span: Option<Span>,
 ) -> SourceDiag {
-    let span = Span::new(span.start().saturating_sub(1), span.end() + 1);
+    // include the parentheses in the label only when they are right next to
+    // the note text (a comment or an escape can be in between)
+    let bytes = input.as_bytes();
+    let start = match span.start().checked_sub(1) {
+        Some(prev) if bytes.get(prev) == Some(&b'(') => prev,
+        _ => span.start(),
+    };
+    let end = if bytes.get(span.end()) == Some(&b')') {
+        span.end() + 1
+    } else {
+        span.end()
+    };
+    let span = Span::new(start, end);
 
     let mut e = error!("Note not allowed in reference", label!(span, "remove this"));
 
